@@ -39,7 +39,7 @@ var lexSpec = map[string]string{
 	"+": "PLUS", "-": "MINUS", "!": "NOT", "(": "LEFT_PAREN", ")": "RIGHT_PAREN", "%": "PERCENT",
 	"=": "ASSIGN", "+=": "ADDITION", "-=": "SUBTRACTION", "*=": "MULTIPLICATION", "/=": "DIVISION", "%=": "REMAINDER",
 	"|=": "BITWISE_OR", "&=": "BITWISE_AND", "^=": "BITWISE_XOR", "<<=": "LEFT_SHIFT", ">>=": "RIGHT_SHIFT",
-	"&&=": "LOGICAL_AND", "||=": "LOGICAL_OR",
+	"&&=": "LOGICAL_AND", "||=": "LOGICAL_OR", "rol=": "LEFT_ROTATE", "ror=": "RIGHT_ROTATE",
 	";": "SEMICOLON", ",": "COMMA", ".": "DOT", ":": "COLON", "{": "LEFT_BRACE", "}": "RIGHT_BRACE", "[": "LEFT_BRACKET", "]": "RIGHT_BRACKET", "/": "SLASH",
 }
 
@@ -487,7 +487,15 @@ func checkLexSpec(c *core.Ctx, tokName map[string]string) {
 				continue
 			}
 			bo, ok := iff.Cond.(*ssa.BinOp)
-			if !ok || bo.Op != token.EQL || !isCharRead(bo.X) {
+			if !ok || bo.Op != token.EQL {
+				continue
+			}
+			if ks, isStr := bo.Y.(*ssa.Const); isStr && ks.Value != nil && ks.Value.Kind() == constant.String && core.EdgeDominates(id, 0, b) {
+				// a keyword-like prefix read as an identifier (`rol`, `ror`)
+				rs = append([]rune(constant.StringVal(ks.Value)), rs...)
+				continue
+			}
+			if !isCharRead(bo.X) {
 				continue
 			}
 			k, ok := core.ConstIntValue(bo.Y)
